@@ -416,6 +416,26 @@ Definition obs_obj (v : option avc_obj) : sx :=
   | Some (OSample l ns) => SL [SZ 1; sN l; s_nalus ns]
   end.
 
+(* cases 11/12: large samples / records given compactly as (ref type len fill) unit specs with
+   generated payloads; only lengths and adler32 checksums are observed *)
+Definition p_cnalu (s : sx) : option nalu :=
+  match s with
+  | SL [SZ r; SZ t; SZ len; SZ fill] => Some (mk_nalu (Z.to_N r) (Z.to_N t) (gen_payload (Z.to_nat len) 0 (Z.to_N fill)))
+  | _ => None
+  end.
+Fixpoint p_cnalus (l : list sx) : option (list nalu) :=
+  match l with
+  | [] => Some []
+  | s :: t => match p_cnalu s, p_cnalus t with
+              | Some n, Some ns => Some (n :: ns)
+              | _, _ => None
+              end
+  end.
+Definition s_nalu_sum (n : nalu) : sx := SL [sN (nref n); sN (ntype n); sN (lenN (ndata n)); sN (adler32 (ndata n))].
+Definition s_nalus_sum (ns : list nalu) : sx := SL (map s_nalu_sum ns).
+Definition s_res (x : res unit) : sx :=
+  match x with Ok _ => SL [SZ 0] | Err e => SL [SZ 1; sN e] | Panic _ => s_panic end.
+
 Definition run_c12 (c : sx) : sx :=
   match c with
   | SL [SZ 1; SB data] =>
@@ -474,6 +494,24 @@ Definition run_c12 (c : sx) : sx :=
           else s_ok [SB iso; d]
       | _, _ => bad_case
       end
+  | SL [SZ 11; SZ l; SL specs] =>
+      match p_cnalus specs with
+      | Some ns =>
+          let b := sample_marshal (Z.to_N l) ns in
+          let (ns', x) := sample_unmarshal (Z.to_N l) [] b in
+          SL [sN (lenN b); sN (adler32 b); s_res x; s_nalus_sum ns']
+      | None => bad_case
+      end
+  | SL [SZ 12; SZ prof; SZ compat; SZ level; SZ l; SL sps; SL pps] =>
+      match p_cnalus sps, p_cnalus pps with
+      | Some sps, Some pps =>
+          let b := rec_marshal (mk_rec 1 (Z.to_N prof) (Z.to_N compat) (Z.to_N level) (Z.to_N l) sps pps) in
+          let (r, x) := rec_unmarshal rec0 b in
+          SL [sN (lenN b); sN (adler32 b); s_res x; sN (r_ver r); sN (r_prof r); sN (r_compat r); sN (r_level r); sN (r_lsm1 r);
+              s_nalus_sum (r_sps r); s_nalus_sum (r_pps r)]
+      | _, _ => bad_case
+      end
+  | SL (SZ 13 :: _) => SL [SZ 0]      (* oracle-only marker: sizes beyond what the model run is fed (>= 2^24 bytes) *)
   | SL [SZ 10; SL ops] =>
       match p_avc_ops ops with
       | Some ops =>
